@@ -177,6 +177,12 @@ def run(ctx):
             BYTES = r"usage|memcurrent|mem_current|bytes|swap(total|used|_)|memory_(min|low|high|max|protection)|pg_scan|io_cost"
             if not any(re.search(BYTES, f.text(o)) or re.search(BYTES, Xm(o)) for o in (nd["l"], nd["r"])):
                 continue
+            # divide-first forms (total / 100 * percent, total % 100 * percent) stay below the total: they cannot wrap
+            def scaled_down(o):
+                on = f.nodes[f.strip(o)]
+                return on["k"] == "bin" and on.get("op") in ("/", "%") and (const_int(f, on["r"]) or 0) >= 100
+            if scaled_down(nd["l"]) or scaled_down(nd["r"]):
+                continue
             n_mul += 1
             ctx.use(f)
             ctx.violation("byte-count-product-cannot-wrap:%s@%d" % (short(f), nd.get("line", 0)), "E-TYPE overflow (integer product of two run-time values)", f.loc(i),
